@@ -14,6 +14,7 @@ INVARIANTS
   TypeOK
   LocksConsistent
   StoredIsAssociated
+  StoredImpliesAssociated
   LogsContiguous
   PrunedOnlyBelowPruneOp
   CursorIsMaxOfAcked
